@@ -5,6 +5,7 @@ use crate::spec;
 use crate::stubs::{any_bool, no, yes};
 use succinctly::json::JsonIndex;
 
+/// rank and plain select: every position, every k (including k >= ones and k >= 2^32).
 macro_rules! ib_rank_select {
     ($name:ident, $w:expr, $bmi2:path) => {
         #[kani::proof]
@@ -15,23 +16,16 @@ macro_rules! ib_rank_select {
             let ib: [u64; $w] = kani::any();
             let bp: [u64; 1] = [0];
             let idx = JsonIndex::from_parts(&ib[..], 64 * $w, &bp[..], 0);
-            // rank: every position, including past the end
             let p: usize = kani::any();
             let lim = if p < 64 * $w { p } else { 64 * $w };
             assert!(idx.ib_rank1(p) == spec::rank1(&ib, lim));
-            // select: every k, including k >= number of ones (and huge k)
             let k: usize = kani::any();
             let want = spec::select1(&ib, 64 * $w, k);
             let got = idx.ib_select1(k);
             assert!(got == want);
-            // select with a hint: the same answer for every hint
-            let hint: usize = kani::any();
-            kani::assume(hint <= $w + 10);
-            let hinted = idx.ib_select1_from(k, hint);
-            assert!(hinted == want);
-            kani::cover!(matches!(want, Some(x) if x >= 64 * ($w - 1)) && hint == 0);
-            kani::cover!(matches!(want, Some(x) if x < 64) && hint >= $w - 1);
+            kani::cover!(matches!(want, Some(x) if x >= 64 * ($w - 1)));
             kani::cover!(want.is_none() && k < 64 * $w);
+            kani::cover!(k > u32::MAX as usize);
             core::mem::forget(idx);
         }
     };
@@ -41,6 +35,35 @@ ib_rank_select!(c07_ib_4w_pdep, 4, yes);
 ib_rank_select!(c07_ib_1w, 1, no);
 ib_rank_select!(c07_ib_9w, 9, no);
 ib_rank_select!(c07_ib_12w, 12, no);
+
+/// select with a hint == plain select, for every hint (the in-word select is
+/// replaced by its contract here; the harness above keeps the real one).
+macro_rules! ib_hint {
+    ($name:ident, $w:expr) => {
+        #[kani::proof]
+        #[kani::unwind(7)]
+        #[kani::stub(succinctly::util::broadword::select_in_word, crate::stubs::select_in_word_contract)]
+        fn $name() {
+            let ib: [u64; $w] = kani::any();
+            let bp: [u64; 1] = [0];
+            let idx = JsonIndex::from_parts(&ib[..], 64 * $w, &bp[..], 0);
+            let k: usize = kani::any();
+            let hint: usize = kani::any();
+            kani::assume(hint <= $w + 10);
+            let plain = idx.ib_select1(k);
+            let hinted = idx.ib_select1_from(k, hint);
+            assert!(hinted == plain);
+            kani::cover!(matches!(plain, Some(x) if x >= 64 * ($w - 1)) && hint == 0);
+            kani::cover!(matches!(plain, Some(x) if x < 64) && hint >= $w - 1);
+            kani::cover!(plain.is_none() && hint == 1);
+            core::mem::forget(idx);
+        }
+    };
+}
+ib_hint!(c07_hint_2w, 2);
+ib_hint!(c07_hint_4w, 4);
+ib_hint!(c07_hint_9w, 9);
+ib_hint!(c07_hint_12w, 12);
 
 /// Empty index: no words at all.
 #[kani::proof]
